@@ -256,6 +256,8 @@ def ignore_evaluated(rep, ex: Explorer, be: Backend, prefix):
                         continue
                     n_calls += 1
                     line = line or ev.node.lineno
+                    if ev.data.get("ignore_one_shot") and bad is None:
+                        bad = f"layers {layers} at layer {k}: the ignore argument is an iterator (generator / chain): every membership test of the enumeration advances it, so later tests and the next computation find less than the keys of the other layers"
                     if ev.ignore is None:
                         got = set()
                     else:
@@ -688,6 +690,11 @@ def query_slots(rep, be: Backend, site, p, prefix, keys=False, history=False):
     recursion starts; KEY.no-reserved: not under a literal key of a dictionary that is keyed by the base's keys."""
     state_oid, names = _state_of_path(p)
     evs = [ev for ev, Q in iter_events(p.events)]
+    # the id pool of the state only grows: an operator that rewinds it after a query hands the ids of that query's variables
+    # (and of the helper variables the enumeration took meanwhile) out again, for other things
+    for ev in evs:
+        if ev.kind == "attr.set" and ev.data.get("cls") == "IDPool":
+            rep.violation("CNF.pool", f"{site}:{ev.node.lineno}", f"pool.{ev.attr} assigned", "ids handed out stay handed out: the pool of a state is never rewound", extracted=f"pool.{ev.attr} = {ev.value!r}"[:120], required="no assignment to the pool's counters", function=site)
     kinds = {}
     for i, ev in enumerate(evs):
         if ev.kind == "dict.set" and isinstance(ev.obj, Ref) and isinstance(ev.value, ElemV) and ev.value.role == "cnf":
